@@ -160,6 +160,9 @@ def fatal_race_of(stderr):
     if not m and "WARNING: DATA RACE" in (stderr or ""):
         # a -race build that went on after a reported race and then crashed inside the racing code
         m = re.search(r"(panic: runtime error: [^\n]*)", stderr)
+    if not m and re.search(r"panic: runtime error[^\n]*\n(?:\[signal[^\n]*\n)?\ngoroutine \d+ \[running\]:\ngithub.com/Comcast/sheens/sio\.\(\*Timers\)\.changed", stderr or ""):
+        # the timer goroutine's unsynchronised write to the crew's change cache read garbage
+        m = re.search(r"(panic: runtime error: [^\n]*)", stderr)
     if not m:
         return None
     frames = sorted(set(re.findall(r"^(github.com/Comcast/sheens/\S+?)\(", stderr, flags=re.M)))
